@@ -1,5 +1,10 @@
 package main
 
+import (
+	"go/ast"
+	"go/constant"
+)
+
 func init() {
 	register(&PropDef{
 		ID:    "C31",
@@ -30,4 +35,73 @@ func ruleImportTablesFloors(c *Ctx) {
 	c.Floor("T3-untyped", 220)
 	c.Floor("T4-proxy", 90)
 	c.Floor("T5-wrapper", 100)
+}
+
+func init() {
+	register(&PropDef{
+		ID:    "C32",
+		Title: "Untyped constant serialization round-trips exactly",
+		Explanation: "Decided: M2 the tags written by Marshal (one per Kind arm) and the tags read by Unmarshal are in bijection and map back to the same Kind; M3 the number of payload fields written per tag equals the number the reader splits; " +
+			"M4 the tag is cut at the FIRST ':' and the payload is everything after it; M5 every numeric field is produced by constant.Value.ExactString (never the lossy String) and consumed by MakeFromLiteral(token.INT) for int/rune or by unmarshalFloat for float/complex; " +
+			"M6 unmarshalFloat splits on '/' and divides numerator by denominator; T3 (shared with C31) every one of the marshalled literals present in the import tables decodes, with the checker's own reader, to exactly the constant it names. " +
+			"Not decided: that go/constant's ExactString and MakeFromLiteral are mutually inverse (trusted).",
+		Assumptions: []string{"go/constant ExactString/MakeFromLiteral are inverse on exact values", "fmt.Sprintf %s is verbatim"},
+		Rules:       []func(*Ctx){ruleMarshalTables, ruleUntypedLiteralsOnly},
+		Mutants: []Mutant{
+			{Name: "lossy-string", File: "base/untyped/val.go", Old: `s = fmt.Sprintf("float:%s", val.ExactString())`, New: `s = fmt.Sprintf("float:%s", val.String())`, Canary: true},
+			{Name: "tag-kind-swapped", File: "base/untyped/val.go", Old: "case \"rune\":\n\t\tkind = Rune", New: "case \"rune\":\n\t\tkind = Int"},
+			{Name: "last-colon", File: "base/untyped/val.go", Old: `strings.IndexByte(marshalled, ':')`, New: `strings.LastIndexByte(marshalled, ':')`, Canary: true},
+			{Name: "fraction-inverted", File: "base/untyped/val.go", Old: `return constant.BinaryOp(x, token.QUO, y)`, New: `return constant.BinaryOp(y, token.QUO, x)`},
+			{Name: "complex-imag-as-int", File: "base/untyped/val.go", Old: `im := unmarshalFloat(str[sep+1:])`, New: `im := constant.MakeFromLiteral(str[sep+1:], token.INT, 0)`},
+			{Name: "int-as-float-literal", File: "base/untyped/val.go", Old: "kind = Int\n\t\tval = constant.MakeFromLiteral(str, token.INT, 0)", New: "kind = Int\n\t\tval = constant.MakeFromLiteral(str, token.FLOAT, 0)"},
+		},
+	})
+}
+
+// ruleUntypedLiteralsOnly: every marshalled literal in the import tables is in the
+// canonical form Marshal writes: decoding it (checker's own reader) and re-encoding
+// the value with ExactString gives the same string back.
+func ruleUntypedLiteralsOnly(c *Ctx) {
+	for _, t := range findImportTables(c.P) {
+		cl := t.field["Untypeds"]
+		if cl == nil {
+			continue
+		}
+		for _, e := range cl.Elts {
+			kv := e.(*ast.KeyValueExpr)
+			k, ok := strKey(t.pk.TypesInfo, kv.Key)
+			s, ok2 := strKey(t.pk.TypesInfo, kv.Value)
+			if !ok || !ok2 {
+				continue
+			}
+			key := "imports[" + t.path + "]." + k
+			kind, val, err := decodeUntyped(s)
+			if err != nil {
+				c.Ob("U1-literal-roundtrip", key, kv, false, err.Error())
+				continue
+			}
+			back := encodeUntyped(kind, val)
+			c.Ob("U1-literal-roundtrip", key, kv, back == s, "decode then encode: "+short(s)+" -> "+short(back))
+		}
+	}
+	c.Floor("U1-literal-roundtrip", 220)
+}
+
+func encodeUntyped(kind string, v constant.Value) string {
+	switch kind {
+	case "bool":
+		if constant.BoolVal(v) {
+			return "bool:true"
+		}
+		return "bool:false"
+	case "int", "rune":
+		return kind + ":" + constant.ToInt(v).ExactString()
+	case "float":
+		return "float:" + v.ExactString()
+	case "complex":
+		return "complex:" + constant.Real(v).ExactString() + ":" + constant.Imag(v).ExactString()
+	case "string":
+		return "string:" + constant.StringVal(v)
+	}
+	return "nil"
 }
